@@ -17,6 +17,10 @@ __CPROVER_ensures(__CPROVER_return_value != 0 && (i == g_w ==> __CPROVER_return_
 /* CollectionClearGuard<NodeVectorType> guard(m_scratchVector): clears the scratch vector on EVERY exit, also when a sort key throws */
 void xv_guard_scratch(void) __CPROVER_requires(g_scratch_size == 0) __CPROVER_assigns(g_guarded) __CPROVER_ensures(g_guarded == true) ;
 void xv_scratch_clear(void) __CPROVER_requires(1) __CPROVER_assigns() __CPROVER_ensures(1) ;   /* an explicit clear() runs on the normal path only */
+size_t xv_scratch_size(void) __CPROVER_requires(1) __CPROVER_assigns() __CPROVER_ensures(__CPROVER_return_value == g_scratch_size) ;
+void xv_scratch_resize(size_t n) __CPROVER_requires(n <= ((size_t)1 << 40)) __CPROVER_assigns(g_scratch_size) __CPROVER_ensures(g_scratch_size == n) ;
+void xv_scratch_set(size_t i, const XalanNode* n, size_t pos) __CPROVER_requires(/* element access inside the vector */ i < g_scratch_size && n != 0 && pos == i) __CPROVER_assigns(g_scr_w_node, g_scr_w_pos)
+__CPROVER_ensures(i == g_w ? (g_scr_w_node == n && g_scr_w_pos == pos) : (g_scr_w_node == __CPROVER_old(g_scr_w_node) && g_scr_w_pos == __CPROVER_old(g_scr_w_pos))) ;
 void xv_scratch_push(const XalanNode* n, size_t pos)
 __CPROVER_requires(n != 0 && g_sorted == false)
 __CPROVER_requires(/* the position recorded with a node is its index in the selected list (and in the vector being filled) */ pos == g_scratch_size)
@@ -62,12 +66,15 @@ void h_sortList(void)
 '''
 R = [(r'm_keys\.empty\(\) == false', '(g_nkeys != 0)', 1),
      (r'const NodeRefListBase::size_type\s+theLength = theList\.getLength\(\);', 'const size_t theLength = xv_list_length(theList);', 1),
-     (r'assert\(m_scratchVector\.empty\(\) == true\);', 'assert(g_scratch_size == 0);', 1),
+     (r'assert\(m_scratchVector\.empty\(\) == true\);', 'assert(g_scratch_size == 0);', (0, 1)),
+     (r'm_scratchVector\.size\(\) < theLength', 'xv_scratch_size() < theLength', (0, 1)),
+     (r'm_scratchVector\.resize\((\w+)\);', r'xv_scratch_resize(\1);', (0, 1)),
+     (r'm_scratchVector\[(\w+)\] = NodeVectorType::value_type\(theList\.item\((\w+)\), (\w+)\);', r'xv_scratch_set(\1, xv_list_item(theList, \2), \3);', (0, 1)),
      (r'CollectionClearGuard<NodeVectorType>\s+guard\(m_scratchVector\);', 'xv_guard_scratch();', (0, 1)),
      (r'm_scratchVector\.clear\(\);', 'xv_scratch_clear();', (0, 2)),
-     (r'm_scratchVector\.reserve\(theLength\);', '', 1),
+     (r'm_scratchVector\.reserve\(theLength\);', '', (0, 1)),
      (r'NodeRefListBase::size_type\s+i = 0;', 'size_t i = 0;', 1),
-     (r'm_scratchVector\.push_back\(NodeVectorType::value_type\(theList\.item\((\w+)\), (\w+)\)\);', r'xv_scratch_push(xv_list_item(theList, \1), \2);', 1),
+     (r'm_scratchVector\.push_back\(NodeVectorType::value_type\(theList\.item\((\w+)\), (\w+)\)\);', r'xv_scratch_push(xv_list_item(theList, \1), \2);', (0, 1)),
      (r'(?<![\w.>])sort\(executionContext\);', 'xv_stable_sort(self);', (0, 2)),
      (r'assert\(m_scratchVector\.size\(\) == NodeVectorType::size_type\(theLength\)\);', 'assert(g_scratch_size == theLength);', 1),
      (r'theList\.clear\(\);', 'xv_list_clear(theList);', (0, 1)),
@@ -110,7 +117,7 @@ __CPROVER_ensures(/* with keys: sorted once, and the list has one node per selec
     g_nkeys != 0 ==> (g_sorted == true && g_list_len == g_len0 && (g_v < g_len0 ==> g_out_v == g_sorted_v_node)))''')],
     template=TEMPLATE,
     jobs=[Job('sortAlgo', 'h_sortAlgo', enforce=['sortAlgo'], replace=['xv_guard_cache', 'xv_make_comparer', 'xv_algo'], reach='all', timeout=300, min_obligations=4),
-          Job('sortList', 'h_sortList', enforce=['sortList'], replace=['xv_guard_scratch', 'xv_scratch_clear', 'xv_list_length', 'xv_list_item', 'xv_scratch_push', 'xv_stable_sort', 'xv_list_clear', 'xv_scratch_node', 'xv_list_add'],
+          Job('sortList', 'h_sortList', enforce=['sortList'], replace=['xv_scratch_size', 'xv_scratch_resize', 'xv_scratch_set', 'xv_guard_scratch', 'xv_scratch_clear', 'xv_list_length', 'xv_list_item', 'xv_scratch_push', 'xv_stable_sort', 'xv_list_clear', 'xv_scratch_node', 'xv_list_add'],
               loop_contracts=True, reach='all', timeout=300, min_obligations=8)],
     mutants=[
         Mutant('unstable_sort', NS, r'using std::stable_sort;(.*?)\n    stable_sort\(', r'using std::sort;\1\n    sort(', expect='equivalent'),
